@@ -519,9 +519,7 @@ static R LPFreadValue(char*& pos, SPxOut* spxout)
 {
    assert(LPFisValue(pos));
 
-   char        tmp[SOPLEX_LPF_MAX_LINE_LEN];
    const char* s = pos;
-   char*       t;
    R        value = 1.0;
    bool        has_digits = false;
    bool        has_emptyexponent = false;
@@ -581,11 +579,9 @@ static R LPFreadValue(char*& pos, SPxOut* spxout)
       value = (*pos == '-') ? -1.0 : 1.0;
    else
    {
-      for(t = tmp; pos != s; pos++)
-         *t++ = *pos;
-
-      *t = '\0';
-      value = atof(tmp);
+      // copy the literal into a buffer of its own length (tokens may be longer than SOPLEX_LPF_MAX_LINE_LEN)
+      std::string tmp(static_cast<const char*>(pos), s);
+      value = atof(tmp.c_str());
    }
 
    pos += s - pos;
@@ -614,19 +610,17 @@ static int LPFreadColName(char*& pos, NameSet* colnames, LPColSetBase<R>& colset
    assert(LPFisColName(pos));
    assert(colnames != nullptr);
 
-   char        name[SOPLEX_LPF_MAX_LINE_LEN];
    const char* s = pos;
-   int         i;
    int         colidx;
 
    // These are the characters that are not allowed in a column name.
    while((strchr("+-.<>= ", *s) == nullptr) && (*s != '\0'))
       s++;
 
-   for(i = 0; pos != s; i++, pos++)
-      name[i] = *pos;
-
-   name[i] = '\0';
+   // copy the name into a buffer of its own length (names may be longer than SOPLEX_LPF_MAX_LINE_LEN)
+   std::string namestr(static_cast<const char*>(pos), s);
+   const char* name = namestr.c_str();
+   pos += s - pos;
 
    if((colidx = colnames->number(name)) < 0)
    {
@@ -757,17 +751,11 @@ static inline bool LPFhasRowName(char*& pos, NameSet* rownames)
 
    assert(srt <= end && pos[srt] != ' ');
 
-   char name[SOPLEX_LPF_MAX_LINE_LEN];
-   int i;
-   int k = 0;
-
-   for(i = srt; i <= end; i++)
-      name[k++] = pos[i];
-
-   name[k] = '\0';
+   // copy the name into a buffer of its own length (names may be longer than SOPLEX_LPF_MAX_LINE_LEN)
+   std::string name(pos + srt, pos + end + 1);
 
    if(rownames != nullptr)
-      rownames->add(name);
+      rownames->add(name.c_str());
 
    pos = &(pos[dcolpos + 1]);
 
